@@ -35,7 +35,7 @@ pub fn run(tier: Tier, seed: u64, replay: Option<String>) -> i32 {
     };
     let run = GenericRun {
         gcfg: gen_cfg(),
-        n: tier.pick(5000, 150000),
+        n: tier.pick(20000, 300000),
         stream_len: 4000,
         salt: 5,
         shrink_budget: 400,
